@@ -1,0 +1,10 @@
+//go:build verif
+// +build verif
+
+package srp
+
+// VerifGetInputCheckPassword is a verification hook (build tag verif): the SRP computation with the
+// client's random exponent supplied by the caller.
+func VerifGetInputCheckPassword(password string, srpB []byte, mp *ModPow, random []byte) (*SrpAnswer, error) {
+	return getInputCheckPassword(password, srpB, mp, random)
+}
